@@ -10,6 +10,8 @@
 (*   theta class of the sampled coefficients stored in the model           *)
 (*         "-" (PIT has none) | "soft" | "hard" (one-hot)                  *)
 (*   bn    number of BatchNorm statistics updates so far (saturating)      *)
+(*   dk    attribute keys added to the __dict__ of modules of the model    *)
+(*         since construction (abstract: a set of key classes)             *)
 (* plus, not modelled but observed on the real object as opaque values,    *)
 (* parameters, buffers, requires_grad flags, outputs, costs, summary.      *)
 (* The cost specification cs in {"A","B"} (single CostSpec) or "D" (dict)  *)
@@ -30,6 +32,10 @@
 (*                    (F16), which for MPS also re-samples the persistent  *)
 (*                    theta_alpha buffers in eval mode (F35)               *)
 (*   impl = "f16"     pinned + the candidate repair of F16 (mode restored) *)
+(*   impl = "costkeys" ref, except that cost / get_cost hand the LIVE      *)
+(*                    vars(module) dictionary to the cost functions and    *)
+(*                    update it (F36: MPSAdd under vmap; F37: fixed /      *)
+(*                    branch layers get 'output_shape')                    *)
 (***************************************************************************)
 EXTENDS Naturals, Sequences, FiniteSets
 
@@ -65,6 +71,8 @@ PinnedExport(kind, P, c, restore) ==
 
 ImplNext(impl, kind, P, c, a) ==
     IF impl = "ref" THEN RefNext(kind, P, c, a)
+    ELSE IF impl = "costkeys"
+         THEN (IF a.a \in {"cost", "getcost"} THEN [c EXCEPT !.dk = c.dk \cup {"costkeys"}] ELSE RefNext(kind, P, c, a))
     ELSE IF a.a = "export" THEN PinnedExport(kind, P, c, impl = "f16")
     ELSE IF a.a = "summary" /\ kind = "sn"
          THEN [c EXCEPT !.theta = Sampled(kind, P.hard, c.st)]   \* SuperNetCombiner.summary() re-samples
